@@ -3,6 +3,7 @@ package rg
 import (
 	"fmt"
 	"go/token"
+	"go/types"
 	"strings"
 
 	"golang.org/x/tools/go/ssa"
@@ -345,12 +346,24 @@ var rR27 = RuleRef{Name: "R27", Doc: "rejected commands change nothing: on every
 					if u, ok := cond.(*ssa.UnOp); ok && u.Op == token.NOT {
 						failVal, failEdge = u.X, !neg
 					}
-					if bo, ok := cond.(*ssa.BinOp); ok && (bo.Op == token.NEQ || bo.Op == token.EQL) && (isNilConst(bo.X) || isNilConst(bo.Y)) {
-						failVal = bo.X
-						if isNilConst(bo.X) {
-							failVal = bo.Y
+					if bo, ok := cond.(*ssa.BinOp); ok {
+						switch {
+						case (bo.Op == token.NEQ || bo.Op == token.EQL) && (isNilConst(bo.X) || isNilConst(bo.Y)):
+							failVal = bo.X
+							if isNilConst(bo.X) {
+								failVal = bo.Y
+							}
+							failEdge = (bo.Op == token.NEQ) != neg
+						case (bo.Op == token.NEQ || bo.Op == token.EQL) && (isZeroInt(bo.X) || isZeroInt(bo.Y)):
+							// a count of changes: zero is the failure status
+							failVal = bo.X
+							if isZeroInt(bo.X) {
+								failVal = bo.Y
+							}
+							failEdge = (bo.Op == token.EQL) != neg
+						default:
+							failEdge = false
 						}
-						failEdge = (bo.Op == token.NEQ) != neg
 					}
 					if failEdge {
 						backslice(failVal, func(v ssa.Value) bool {
@@ -398,10 +411,30 @@ var rR27 = RuleRef{Name: "R27", Doc: "rejected commands change nothing: on every
 			if !live {
 				continue
 			}
+			descr := "a computed text"
+			for _, v := range returnedValues(ret) {
+				if isErrorReply(v) {
+					descr = errReplyDescr(v)
+				}
+			}
+			// the call whose status selects this return names it better than its text
+			if len(b.Preds) == 1 {
+				if iff, ok := b.Preds[0].Instrs[len(b.Preds[0].Instrs)-1].(*ssa.If); ok {
+					backslice(iff.Cond, func(x ssa.Value) bool {
+						if c2, ok := x.(*ssa.Call); ok {
+							if cf := c2.Call.StaticCallee(); cf != nil {
+								descr = "decided by " + cf.Name()
+							}
+							return false
+						}
+						return true
+					})
+				}
+			}
 			for e := range st {
 				for f := range decState(e) {
 					if strings.HasPrefix(f, "M|") {
-						kind := f[strings.LastIndex(f, " ")+1:]
+						kind := f[strings.LastIndex(f, " ")+1:] + " before the error reply " + descr
 						badKind[kind] = append(badKind[kind], "error return at "+c.pos(ret.Pos())+" after "+f[2:])
 					}
 				}
@@ -413,7 +446,7 @@ var rR27 = RuleRef{Name: "R27", Doc: "rejected commands change nothing: on every
 			c.Add("R27", fnName(fn), "an error reply is returned only when nothing was changed", fn.Pos(), true, "")
 		}
 		for kind, bs := range badKind {
-			c.Add("R27", fnName(fn), "no "+kind+" before an error reply", fn.Pos(), false, strings.Join(uniq(bs), "; "))
+			c.Add("R27", fnName(fn), "no "+kind, fn.Pos(), false, strings.Join(uniq(bs), "; "))
 		}
 	}
 	c.Count("R27_executors", n)
@@ -959,4 +992,71 @@ func (c *C) getOrigins(v ssa.Value) (keys []string, unknown bool) {
 		keys = append(keys, k)
 	}
 	return
+}
+
+func isZeroInt(v ssa.Value) bool {
+	k, ok := v.(*ssa.Const)
+	if !ok || k.Value == nil {
+		return false
+	}
+	if b, ok := k.Type().Underlying().(*types.Basic); !ok || b.Info()&types.IsInteger == 0 {
+		return false
+	}
+	return k.Int64() == 0
+}
+
+// errReplyDescr names an error reply by what it says: its constant text, or whose error it carries.
+func errReplyDescr(v ssa.Value) string {
+	mi, ok := v.(*ssa.MakeInterface)
+	if !ok {
+		return "of a helper"
+	}
+	call, ok := mi.X.(*ssa.Call)
+	if !ok || len(call.Call.Args) == 0 {
+		return "a computed text"
+	}
+	arg := call.Call.Args[0]
+	if sl, ok := arg.(*ssa.Slice); ok {
+		// the variadic argument list: its first element
+		if al, ok := sl.X.(*ssa.Alloc); ok && al.Referrers() != nil {
+			for _, r := range *al.Referrers() {
+				if ia, ok := r.(*ssa.IndexAddr); ok && ia.Referrers() != nil {
+					if k, ok := ia.Index.(*ssa.Const); !ok || k.Int64() != 0 {
+						continue
+					}
+					for _, rr := range *ia.Referrers() {
+						if st, ok := rr.(*ssa.Store); ok && st.Addr == ssa.Value(ia) {
+							arg = st.Val
+						}
+					}
+				}
+			}
+		}
+	}
+	if k, ok := arg.(*ssa.Const); ok && k.Value != nil {
+		t := strings.Trim(k.Value.ExactString(), "\"")
+		if len(t) > 48 {
+			t = t[:48]
+		}
+		return "'" + t + "'"
+	}
+	out := "a computed text"
+	backslice(arg, func(x ssa.Value) bool {
+		if c2, ok := x.(*ssa.Call); ok {
+			if c2.Call.IsInvoke() && c2.Call.Method.Name() == "Error" {
+				backslice(c2.Call.Value, func(y ssa.Value) bool {
+					if c3, ok := y.(*ssa.Call); ok {
+						if cf := c3.Call.StaticCallee(); cf != nil {
+							out = "carrying the error of " + cf.Name()
+						}
+						return false
+					}
+					return true
+				})
+				return false
+			}
+		}
+		return true
+	})
+	return out
 }
